@@ -217,7 +217,7 @@ CHECKS = {
          "world, text and fuel (a relation between the two parser runs carried through yylex and the parser loop); C20_three_entries "
          "combines them. Tied to the code by reading the same bytes through "
          "config_read_string, config_read on fmemopen and on an fopencookie stream delivering 1/7/4095/4096/8191/8192/8193/random-sized "
-         "pieces, and config_read_file, with every token kind slid across the 8 KiB, 16 KiB (and 32 KiB) boundaries and single tokens "
+         "pieces, an fopencookie stream whose delivery is interrupted by a signal (EINTR) and resumed, and config_read_file, with every token kind slid across the 8 KiB, 16 KiB (and 32 KiB) boundaries and single tokens "
          "that exactly fill or overflow flex's 16 KiB buffer; direct oracle: equal result, error text, line and tree."),
    note=TB + "flex's buffer pointer arithmetic (yy_get_next_buffer) is generated code outside the model, exercised under ASan.",
    technique='chunking-independence and entry-point simulation theorems in Lean 4 + differential correspondence at buffer boundaries', ref='§5 C20'),
